@@ -368,7 +368,9 @@ def observe(case, kwargs, env, rq):
         pts = [tm('tp%d' % i) for i in range(T)]
         tg = object.__new__(eao.basic_classes.Timegrid)
         tg.freq = 'h'; tg.main_time_unit = 'h'; tg.tz = None
-        tg.timepoints = pd.DatetimeIndex(pts); tg.T = T
+        tg.timepoints = pd.DatetimeIndex(pts); tg.T = T; tg.I = np.arange(T)
+        tg.dt = np.array([float(env.get('dt%d' % i, 1.0)) for i in range(T)]); tg.Dt = np.cumsum(tg.dt)
+        tg.start = pts[0]; tg.end = tm('tend')          # every attribute a real grid carries (as in the lifted run)
         v = [float(env.get('v%d' % k, k + 1.0)) for k in range(2)]
         if form == 'explicit':
             inp = {'start': [tm('s0'), tm('s1')], 'end': [tm('e0'), tm('e1')], 'values': v}
